@@ -107,6 +107,18 @@ func (p Proxy) ListenAndServe(ctx context.Context) error {
 	errs := make(chan error, expReturns)
 	var closeAll []func() error
 	var closeAllMu sync.Mutex
+	closed := false
+	// register records a listener's close function. It returns false if the
+	// listeners are already being closed: the caller must close its own.
+	register := func(close func() error) bool {
+		closeAllMu.Lock()
+		defer closeAllMu.Unlock()
+		if closed {
+			return false
+		}
+		closeAll = append(closeAll, close)
+		return true
+	}
 	inflightRequests := make(chan struct{}, p.MaxInflightRequests)
 
 	for _, addr := range addrs {
@@ -115,16 +127,20 @@ func (p Proxy) ListenAndServe(ctx context.Context) error {
 			p.logInfof("Listening on UDP/%s", addr)
 			udp, err := lc.ListenPacket(ctx, "udp", addr)
 			if err == nil {
-				closeAllMu.Lock()
-				closeAll = append(closeAll, udp.Close)
-				closeAllMu.Unlock()
-				err = p.serveUDP(udp, inflightRequests)
+				if register(udp.Close) {
+					err = p.serveUDP(udp, inflightRequests)
+				} else {
+					_ = udp.Close()
+					err = context.Canceled
+				}
 			}
-			cancel()
 			if err != nil {
 				err = fmt.Errorf("udp: %w", err)
 			}
+			// Report before cancelling so a bind error is not masked by the
+			// errors of the listeners closed as a consequence.
 			errs <- err
+			cancel()
 		}(addr)
 
 		go func(addr string) {
@@ -132,24 +148,29 @@ func (p Proxy) ListenAndServe(ctx context.Context) error {
 			p.logInfof("Listening on TCP/%s", addr)
 			tcp, err := lc.Listen(ctx, "tcp", addr)
 			if err == nil {
-				closeAllMu.Lock()
-				closeAll = append(closeAll, tcp.Close)
-				closeAllMu.Unlock()
-				err = p.serveTCP(tcp, inflightRequests)
+				if register(tcp.Close) {
+					err = p.serveTCP(tcp, inflightRequests)
+				} else {
+					_ = tcp.Close()
+					err = context.Canceled
+				}
 			}
-			cancel()
 			if err != nil {
 				err = fmt.Errorf("tcp: %w", err)
 			}
 			errs <- err
+			cancel()
 		}(addr)
 	}
 
 	<-ctx.Done()
 	errs <- ctx.Err()
+	closeAllMu.Lock()
+	closed = true
 	for _, close := range closeAll {
 		_ = close()
 	}
+	closeAllMu.Unlock()
 	// Wait for the two sockets (+ ctx err) to be terminated and return the
 	// initial error.
 	var err error
